@@ -134,7 +134,7 @@ def _replace(root, old, new):
                         return
 
 
-def make_mutants(prop, max_per_function):
+def make_mutants(prop, max_per_function, offset=0):
     mod = importlib.import_module('vmon.props.' + prop.lower())
     import emsarray
     root = os.path.dirname(emsarray.__file__)
@@ -154,7 +154,7 @@ def make_mutants(prop, max_per_function):
         seen_funcs.add((path, qual))
         all_sites = sites(func)
         step = max(1, len(all_sites) // max_per_function) if max_per_function else 1
-        chosen = all_sites[::step][:max_per_function] if max_per_function else all_sites
+        chosen = all_sites[offset % step if step > 1 else 0::step][:max_per_function] if max_per_function else all_sites
         for desc, sitepath in chosen:
             t2 = copy.deepcopy(tree)
             f2 = find_function(t2, qual)
@@ -195,7 +195,7 @@ def run_one(m, jobs_per_check):
 
 def main():
     args = sys.argv[1:]
-    props, maxper, jobs, outp = [], 6, 6, None
+    props, maxper, jobs, outp, offset = [], 6, 6, None, 0
     i = 0
     while i < len(args):
         if args[i] == '--max-per-function':
@@ -204,13 +204,15 @@ def main():
             jobs = int(args[i + 1]); i += 2
         elif args[i] == '--out':
             outp = args[i + 1]; i += 2
+        elif args[i] == '--offset':
+            offset = int(args[i + 1]); i += 2
         else:
             props.append(args[i]); i += 1
     from vmon import add_deps
     add_deps()
     mutants = []
     for p in props:
-        mutants += make_mutants(p, maxper)
+        mutants += make_mutants(p, maxper, offset)
     print('%d mutants' % len(mutants), flush=True)
     results = []
     with concurrent.futures.ThreadPoolExecutor(max_workers=jobs) as ex:
